@@ -24,7 +24,13 @@ RULE = ("cases: byte strings of every length 0..80 x leading-zero counts (all-ze
         "function of the anchors), after which the next judged calls must be right and the caller's list / bytearray "
         "arguments unchanged; byte strings handed over as bytearray and asked twice with the same object; results of a decoder "
         "handed to the encoder; one parseable_str through both families of parsers incl. addresses that are Base58 strings too; "
-        "HRPs that nest; one long run of more than 2**16 operations in one process on one HRP and two parseable_str objects. "
+        "HRPs that nest; one long run of more than 2**16 operations in one process on one HRP and two parseable_str objects; "
+        "constructed 5-bit symbol streams with a valid checksum of either constant: for every program length 0..41, version 0, 1 "
+        "and others, every padding shape (zero padding of 0..4 bits, 5..19 zero bits as extra all-zero groups, a non-zero padding "
+        "bit in every position and in combinations, extra non-zero groups, random streams with a biased tail), lower and upper "
+        "case, through bech32m.decode, bech32_decode, convertbits, parse_bech32 (plain str and parseable_str) and the address "
+        "parsers (parse.address, p2pkh_segwit, p2sh_segwit, p2tr) of the networks owning the HRPs bc, tb, bcrt, ltc, tltc, with a "
+        "plain string or with the parseable_str that went through parse_bech32 before. "
         "A case is non-trivial when it is not the empty input; distinct by (operation, input).")
 ASSUMPTIONS = [
     "reference codecs in vmon/refs/b58.py and vmon/refs/bech32.py are correct (self-tested on every run against the "
@@ -36,11 +42,21 @@ ASSUMPTIONS = [
     "requests outside the statement (a human-readable part with upper-case letters on the encoding side, versions, programs, "
     "items, texts of the wrong value or type) are never judged themselves - refusing or answering is both fine - only the "
     "judged calls that follow them in the same process and the caller's mutable arguments are",
+    "parse_bech32 (the cached decode helper) rejects a checksum-valid string with invalid padding when it raises, returns None "
+    "or returns an empty / None program; it is not asked to enforce version, program length or checksum-constant rules "
+    "(strings invalid for those reasons only are not judged at the helper, whatever it answers)",
+    "the address parsers network.parse.address / p2pkh_segwit / p2sh_segwit / p2tr are decoders of segwit addresses: for a "
+    "checksum-valid Bech32 string under the network's own HRP that BIP173/BIP350 call invalid (padding, length, version, "
+    "constant) and that is no Base58Check string, they return None or raise; which valid programs they recognise is not judged "
+    "(valid P2WPKH / P2WSH / P2TR siblings being accepted is counted as evidence only)",
 ]
 EXPLANATION = ("every pycoin codec call is compared with the reference codec's result; rejection classes must raise EncodingError / "
                "return (None, None); in history shards the expected result of a call never depends on earlier calls or on what the "
                "caller did with earlier results, nor on refused requests in between; the long-run shard repeats the comparison for more "
-               "than 2**16 operations in one process")
+               "than 2**16 operations in one process; the padding-shape shards build the 5-bit stream themselves, decide it with "
+               "two independent formulations of the BIP173 padding rule (big-integer regrouping and bit arithmetic on the last groups, "
+               "compared on every case) and require every decoding entry point, the cached helper and the address parsers "
+               "included, to yield no program for a stream with more than four or with non-zero padding bits")
 
 
 def exhaustive(tier):
@@ -67,6 +83,10 @@ def plan(tier, seed):
     for p in range(2 if tier == "quick" else 6):
         shards.append({"kind": "errhist", "n": 1200 if tier == "quick" else 20000, "label": "errhist%d" % p})
     shards.append({"kind": "longrun", "n": (1 << 16 if tier == "quick" else 1 << 17) + 100 + 150, "label": "longrun"})
+    # padding shapes of constructed 5-bit streams through every segwit-decoding entry point (appended last, see above)
+    pp = 2 if tier == "quick" else 4
+    for p in range(pp):
+        shards.append({"kind": "padshape", "part": p, "parts": pp, "n": 700 if tier == "quick" else 60000, "label": "padshape%d" % p})
     return shards
 
 
@@ -155,7 +175,8 @@ def selftest(rec):
     assert d is not None and not _has_case(R32.raw_encode("42", d, "bech32m")) and R32.from5(d[1:]) is not None
     # case folding facts the unicode class relies on
     assert "\u212a".lower() == "k" and "\u017f".upper() == "S" and "\u0131".upper() == "I"
-    return {"b58_vectors": RB.selftest(), "bech32_vectors": R32.selftest(), "caseless_examples": n + 1}
+    return {"b58_vectors": RB.selftest(), "bech32_vectors": R32.selftest(), "caseless_examples": n + 1,
+            "padding_verdicts": _pad_selftest()}
 
 
 # ---------------------------------------------------------------------------------------------
@@ -1518,6 +1539,219 @@ def run_subst(spec, rec, M):
         rec.sample({"op": "substitution sweep", "valid": good, "example_corruption": apply([(sep + 2, "q" if good[sep + 2] != "q" else "p")])})
 
 
+# ---------------------------------------------------------------------------------------------
+# padding shapes: constructed 5-bit symbol streams through every entry point that decodes a segwit address
+
+PAD_NETS = (("bc", "btc"), ("tb", "xtn"), ("ltc", "ltc"), ("bcrt", "xrt"), ("tltc", "xlt"))     # BIP173 / litecoin HRPs -> pycoin symbol
+PAD_PARSERS = ("address", "p2pkh_segwit", "p2sh_segwit", "p2tr")
+PAD_SHAPES = ("exact", "nonzero_bit", "nonzero_mask", "extra_zero_groups", "extra_nonzero_group", "extra_zero_then_nonzero",
+              "random_stream")
+
+
+def _pad_nets():
+    import importlib
+    return {hrp: importlib.import_module("pycoin.symbols." + sym).network for hrp, sym in PAD_NETS}
+
+
+def _pad_verdict(vals, variant):
+    """Why the reference refuses the stream [version] + groups under this checksum constant; '' = a valid segwit address.
+    Written from BIP173 ("any value ... zero padding of more than 4 bits ... non-zero padding" are invalid) with plain bit
+    arithmetic on the last groups, a second formulation next to refs.bech32.from5 (the two are compared on every case)."""
+    groups = vals[1:]
+    spare = (5 * len(groups)) % 8                 # bits left over after the last whole byte
+    low = 0
+    for k in range(spare):                        # the spare bits are the lowest bits of the stream
+        g = groups[len(groups) - 1 - k // 5]
+        low |= ((g >> (k % 5)) & 1) << k
+    if low:
+        return "bad_padding.nonzero_bits"
+    if spare > 4:
+        return "bad_padding.excess_zero_bits"
+    nbytes = (5 * len(groups)) // 8
+    if vals[0] > 16:
+        return "bad_version"
+    if nbytes < 2 or nbytes > 40 or (vals[0] == 0 and nbytes not in (20, 32)):
+        return "bad_length"
+    if (vals[0] == 0) != (variant == "bech32"):
+        return "wrong_constant"
+    return ""
+
+
+def _pad_selftest():
+    """The padding verdict on the BIPs' published invalid addresses (the reason is the one the BIP gives) and against
+    refs.bech32.from5 on every stream of up to three groups."""
+    n = 0
+    for text, want in (("bc1zw508d6qejxtdg4y5r3zarvaryvqyzf3du", "bad_padding.excess_zero_bits"),
+                       ("tb1qrp33g0q5c5txsp9arysrx4k6zdkfs4nce4xj0gdcccefvpysxf3pjxtptv", "bad_padding.nonzero_bits"),
+                       ("bc1p0xlxvlhemja6c4dqv22uapctqupfhlxm9h8z3k2e72q4k9hcz7v07qwwzcrf", "bad_padding.excess_zero_bits"),
+                       ("tb1p0xlxvlhemja6c4dqv22uapctqupfhlxm9h8z3k2e72q4k9hcz7vpggkg4j", "bad_padding.nonzero_bits"),
+                       ("bc1pw5dgrnzv", "bad_length"), ("BC1QR508D6QEJXTDG4Y5R3ZARVARYV98GJ9P", "bad_length"),
+                       ("bc1rw5uspcuh", "bad_length"), ("BC130XLXVLHEMJA6C4DQV22UAPCTQUPFHLXM9H8Z3K2E72Q4K9HCZ7VQ7ZWS8R", "bad_version"),
+                       ("bc1qw508d6qejxtdg4y5r3zarvary0c5xw7kemeawh", "wrong_constant"),
+                       ("bc1p0xlxvlhemja6c4dqv22uapctqupfhlxm9h8z3k2e72q4k9hcz7vqh2y7hd", "wrong_constant")):
+        t = R32.raw_decode(text)
+        assert t is not None and _pad_verdict(t[1], t[2]) == want, (text, t and _pad_verdict(t[1], t[2]))
+        n += 1
+    for a, _ in R32.VALID_ADDR:
+        t = R32.raw_decode(a)
+        assert _pad_verdict(t[1], t[2]) == "", a
+        n += 1
+    for a in R32.INVALID_ADDR:
+        t = R32.raw_decode(a)
+        if t is not None and t[1] and t[0] in ("bc", "tb"):
+            assert _pad_verdict(t[1], t[2]) != "", a
+            n += 1
+    for k in range(0, 4):
+        for gs in itertools.product(range(32), repeat=k):
+            assert (R32.from5(list(gs)) is None) == _pad_verdict([1] + list(gs), "bech32m").startswith("bad_padding"), gs
+            n += 1
+    return n
+
+
+def _check_pad_stream(hrp, vals, variant, shape, rec, M, nets, upper=False, via_cache=False):
+    """One constructed stream [version] + 5-bit groups with a valid checksum of the given constant, through bech32m.decode,
+    bech32_decode, convertbits, parse_bech32 (str and parseable_str) and the address parsers of the network owning the HRP."""
+    _, _, bm, ps = M
+    text = R32.raw_encode(hrp, vals, variant)
+    if len(text) > 90:
+        return False
+    if upper:
+        text = text.upper()
+    case = {"padshape": shape, "hrp": hrp, "vals": list(vals), "variant": variant, "upper": bool(upper), "via_cache": bool(via_cache)}
+    why = _pad_verdict(vals, variant)
+    e = R32.from5(vals[1:])
+    ref = R32.segwit_decode(hrp, text)
+    if R32.raw_decode(text) != (hrp, list(vals), variant) or (e is None) != why.startswith("bad_padding") or (ref is None) != bool(why) \
+            or (ref is not None and ref != (vals[0], e)):
+        rec.ev("inconclusive:padshape_reference_formulations_disagree")
+        rec.note("padding-shape references disagree on %r: verdict %r, from5 %r, segwit_decode %r" % (text, why, e, ref))
+        return False
+    rec.ev("padshape.stream")
+    rec.ev("padshape.shape." + shape)
+    rec.ev("padshape.verdict." + (why or "valid"))
+    rec.case(("pad", hrp, tuple(vals), variant, upper))
+    # bech32m.decode / bech32_decode against the reference (existing oracle and keys)
+    _check_decode_text(hrp, text, rec, M, why=why.split(".")[0] if why else "")
+    # the regrouping primitive itself
+    rec.ev("padshape.convertbits")
+    st, g = observe(bm.convertbits, list(vals[1:]), 5, 8, False)
+    if st != "ok" or (e is None) != (g is None) or (e is not None and bytes(g) != e):
+        rec.violation("bech32.convertbits_padding", {"vals": list(vals[1:])}, g, e)
+    # the cached helper: a stream whose padding is invalid holds no program at all. Refusing = raising, None, or an empty
+    # program (how the helper says so today); length / version / constant rules are the address parser's, not the helper's
+    pobj = ps.parseable_str(text)
+    for arg in (text, pobj):
+        rec.ev("padshape.parse_bech32")
+        st, t = observe(ps.parse_bech32, arg)
+        has_prog = st == "ok" and isinstance(t, (tuple, list)) and len(t) >= 3 and t[2] is not None and len(t[2]) > 0
+        if why.startswith("bad_padding"):
+            rec.ev("padshape.parse_bech32.expected_reject." + why.split(".")[1])
+            if has_prog:
+                rec.violation("parseable.bech32_accepts_" + why, case, t, None)
+                break
+        elif not why:
+            rec.ev("padshape.parse_bech32.valid")
+            if not has_prog or t[0] != hrp or t[1] != vals[0] or bytes(t[2]) != e:
+                rec.violation("parseable.bech32_mismatch", {"text": text}, t, [hrp, vals[0], e])
+                break
+        else:
+            rec.ev("padshape.parse_bech32.not_judged")
+    # the address parsers built on the helper
+    net = nets.get(hrp)
+    if net is not None and RB.decode_check(text) is None:
+        arg = pobj if via_cache else text          # the object that went through parse_bech32 above, or a plain string
+        if why:
+            for name in PAD_PARSERS:
+                rec.ev("padshape.address_parser.expected_reject")
+                rec.ev("padshape.address_parser.expected_reject." + why.split(".")[0])
+                st, c = observe(getattr(net.parse, name), arg)
+                if st == "ok" and c is not None:
+                    rec.violation("address_parser.accepts_invalid_segwit." + why, dict(case, parser=name), repr(c), None)
+                    break
+        elif (vals[0], len(e)) in ((0, 20), (0, 32), (1, 32)):
+            # not judged (the statement does not say which programs an address parser knows): evidence that the refusals
+            # above are refusals of the padding / length / constant and not of the whole family of strings
+            st, c = observe(net.parse.address, arg)
+            if st == "ok" and c is not None:
+                rec.ev("padshape.address_parser.valid_sibling_accepted")
+    return True
+
+
+def _pad_streams(groups, pad, rng, full):
+    """Every padding shape on top of the exact groups of a program (pad = number of padding bits in the last group)."""
+    out = [("exact", list(groups))]
+    if groups and pad:
+        for j in range(pad):                                    # one non-zero padding bit, in every position
+            out.append(("nonzero_bit", groups[:-1] + [groups[-1] | (1 << j)]))
+        masks = [m for m in range(1, 1 << pad) if m & (m - 1)]  # two or more padding bits set
+        for m in (masks if full else rng.sample(masks, min(2, len(masks)))):
+            out.append(("nonzero_mask", groups[:-1] + [groups[-1] | m]))
+    for k in (1, 2, 3):                                         # 5, 10, 15 more zero bits: pad + 5k in 5..19
+        out.append(("extra_zero_groups", list(groups) + [0] * k))
+    for g in ([1, 2, 4, 8, 16, 31] if full else [1 << rng.randrange(5), rng.randrange(1, 32)]):
+        out.append(("extra_nonzero_group", list(groups) + [g]))
+    out.append(("extra_zero_then_nonzero", list(groups) + [0, 1 << rng.randrange(5)]))
+    return out
+
+
+def run_padshape(spec, rec, M):
+    """Program lengths 0..41 x version x both checksum constants x every padding shape (zero padding of 0..4 bits = valid,
+    5..19 bits, non-zero padding in every bit position and every combination, extra groups), then random streams."""
+    rng = shard_rng(spec["seed"], PROPERTY, spec["tier"], spec["shard"])
+    nets = _pad_nets()
+    part, parts = spec["part"], spec["parts"]
+    full = spec["tier"] != "quick"
+    net_hrps = [h for h, _ in PAD_NETS]
+    idx = 0
+    for L in range(0, 42):
+        pad = (-8 * L) % 5
+        key = L in (20, 32)
+        vers = [0, 1, 2 + (L + spec["seed"]) % 15] if not full else [0, 1, 2 + L % 15, 16]
+        for ver in vers:
+            for variant in ("bech32", "bech32m"):
+                idx += 1
+                if idx % parts != part:
+                    continue
+                if full or (key and ver < 2):
+                    hrps = net_hrps + ["x1y"]
+                else:
+                    hrps = [(net_hrps + ["x1y", "a"])[(L + ver + spec["seed"]) % 7]]
+                for hi, hrp in enumerate(hrps):
+                    fill = rng.random()
+                    prog = b"\0" * L if fill < 0.08 else b"\xff" * L if fill < 0.16 else bytes(rng.randrange(256) for _ in range(L))
+                    groups = R32.to5(prog)
+                    for si, (shape, gs) in enumerate(_pad_streams(groups, pad, rng, full or (key and hi == 0))):
+                        _check_pad_stream(hrp, [ver] + gs, variant, shape, rec, M, nets,
+                                          upper=(si + hi + L) % 5 == 0, via_cache=(si + L) % 2 == 0)
+    # random streams: any number of groups, the tail biased towards zeros / single bits
+    done = 0
+    while done < spec["n"]:
+        hrp = rng.choice(net_hrps + net_hrps + HRPS)
+        ng = rng.choice([rng.randrange(0, 70), rng.choice([32, 33, 34, 51, 52, 53, 54])])
+        gs = [rng.randrange(32) for _ in range(ng)]
+        for k in range(1, min(ng, rng.choice([0, 1, 1, 2, 3])) + 1):
+            gs[-k] = rng.choice([0, 0, 1 << rng.randrange(5), gs[-k] & (31 << rng.randrange(5)) & 31])
+        ver = rng.choice([0, 0, 1, 1, 2, 16, rng.randrange(17), rng.randrange(32)])
+        variant = ("bech32" if ver == 0 else "bech32m") if rng.random() < 0.85 else ("bech32m" if ver == 0 else "bech32")
+        if _check_pad_stream(hrp, [ver] + gs, variant, "random_stream", rec, M, nets, upper=rng.random() < 0.15,
+                             via_cache=rng.random() < 0.5):
+            done += 1
+        if done == 1:
+            rec.sample({"op": "padshape", "hrp": hrp, "vals": [ver] + gs, "variant": variant})
+    rec.require("padshape.stream", "padshape.parse_bech32", "padshape.convertbits",
+                "padshape.parse_bech32.expected_reject.excess_zero_bits", "padshape.parse_bech32.expected_reject.nonzero_bits",
+                "padshape.parse_bech32.valid", "padshape.address_parser.expected_reject",
+                "padshape.address_parser.expected_reject.bad_padding", "padshape.address_parser.valid_sibling_accepted",
+                "padshape.verdict.bad_padding.excess_zero_bits", "padshape.verdict.bad_padding.nonzero_bits", "padshape.verdict.valid",
+                *["padshape.shape." + s for s in PAD_SHAPES])
+
+
+def replay_padshape(case, rec, M):
+    _check_pad_stream(case["hrp"], [int(v) for v in case["vals"]], case["variant"], case["padshape"], rec, M, _pad_nets(),
+                      upper=bool(case.get("upper")), via_cache=bool(case.get("via_cache")))
+
+
+
 def _tc(o):
     """Witness strings made of digits only would be read back as integers by the replay loader: keep a byte copy."""
     if isinstance(o, dict):
@@ -1560,9 +1794,9 @@ def run_shard(spec, rec):
     kind = spec["kind"]
     rec.require({"b58": "a2b_base58", "b58check": "a2b_base58", "bech32": "bech32m.decode", "bech32_reject": "bech32m.decode",
                  "subst": "subst1", "caseless": "bech32m.decode", "hist": "hist.step", "errhist": "hist.step",
-                 "longrun": "longrun.operation"}[kind])
+                 "longrun": "longrun.operation", "padshape": "padshape.stream"}[kind])
     {"b58": run_b58, "b58check": run_b58check, "bech32": run_bech32, "bech32_reject": run_bech32_reject,
-     "subst": run_subst, "caseless": run_caseless, "hist": run_hist, "errhist": run_errhist, "longrun": run_longrun}[kind](spec, rec, M)
+     "subst": run_subst, "caseless": run_caseless, "hist": run_hist, "errhist": run_errhist, "longrun": run_longrun, "padshape": run_padshape}[kind](spec, rec, M)
 
 
 def replay_case(case, rec):
@@ -1573,6 +1807,8 @@ def replay_case(case, rec):
         replay_history(case, rec, M)
     elif "longrun_upto" in case:
         run_longrun({}, rec, M, upto=int(case["longrun_upto"]))
+    elif "padshape" in case:
+        replay_padshape(case, rec, M)
     elif "corrupted" in case:
         hrp = case.get("hrp") or case["valid"][:case["valid"].rfind("1")]
         _check_decode_text(hrp, case["corrupted"], rec, M, must_reject=True, why="replay")
